@@ -172,6 +172,15 @@ def comparisons(b):
         if sw.kind == 'bool' and on.kind == 'bin' and on.key[0] in _BIN:
             out.append((on.key[1], on.key[2], _BIN[on.key[0]], sw.edges_for(True), sw.edges_for(False), sw.bb))
     for c in b.calls:
+        if c.is_('Ord::cmp') and len(c.args) == 2:
+            # match a.cmp(&b) { Less => .., Equal => .., Greater => .. }
+            sws = b.switches_on_call(c)
+            for name, rel in (('Less', 'lt'), ('Equal', 'eq'), ('Greater', 'gt')):
+                te = [e for sw in sws for e in sw.edges_for(name)]
+                fe = [e for sw in sws for e in sw.edges_not(name)]
+                if te or fe:
+                    out.append((b.val(c.args[0]), b.val(c.args[1]), rel, te, fe, c.bb))
+            continue
         for pat, rel in _CALLS.items():
             if c.is_(pat) and len(c.args) == 2:
                 te, fe = b.branch(c, True), b.branch(c, False)
